@@ -37,4 +37,11 @@ def run(worker, cases, chunksize=None):
             from mc.evidence import HarnessError
 
             raise HarnessError(f"grid worker crashed on case {r.case}: {r.text}")
+    # vacuity guard: every case must come back with a verdict - a violation or an "@class" marker saying what was decided
+    empty = [cases[i] for i, r in out if not r]
+    if empty and os.environ.get("VERIF_ALLOW_EMPTY_VERDICTS") != "1":
+        from mc.evidence import HarnessError
+
+        raise HarnessError(f"{len(empty)} grid case(s) were evaluated without any verdict (not even an outcome class), e.g. {empty[0]!r}: "
+                           "the case list and the evaluator disagree about a case kind")
     return [r for _, r in out]
